@@ -470,7 +470,8 @@ def two_messages(alg_i: int, enc_i: int, curve_i: int, ser: int) -> bool:
             return False
         if info["alg"] not in DIRECT and contents[0]["key"] == contents[1]["key"] and e is contents[1]:
             return False
-    return True
+    # sizes and sources over both calls: content IV, CEK, key-wrap IV (96 bit), PBES2 salt input (>= 8 octets, p2c >= 1000), ephemeral keys
+    return fresh_ok(env, infos[1][0], 2)
 
 
 def witness(alg_i: int, enc_i: int, curve_i: int, ser: int, has_zip: bool, pt: bytes) -> bool:
